@@ -779,8 +779,70 @@ def drop_tokens(toks, what, counts):
     return out
 
 
+def _receiver_start(toks, end):
+    """index of the first token of the postfix expression that ends just before toks[end] (identifiers, paths, field
+    accesses, balanced `(..)` / `[..]` groups, `?`): the receiver of a method call"""
+    j = end
+    while j > 0:
+        t = toks[j - 1]
+        if t.kind == "punct" and t.text in (")", "]"):
+            depth = 0
+            k = j - 1
+            while k >= 0:
+                x = toks[k]
+                if x.kind == "punct" and x.text in (")", "]"):
+                    depth += 1
+                elif x.kind == "punct" and x.text in ("(", "["):
+                    depth -= 1
+                    if depth == 0:
+                        break
+                k -= 1
+            if k < 0:
+                break
+            j = k
+            continue
+        if t.kind == "id" and t.text in ("match", "if", "while", "return", "let", "in", "else", "for", "loop", "break", "mut", "ref", "move", "as", "where", "fn", "unsafe", "await", "async", "dyn", "impl", "use", "pub", "const", "static", "true", "false"):
+            break
+        if t.kind in ("id", "num", "life") or (t.kind == "punct" and t.text in (".", ":", "?")):
+            j -= 1
+            continue
+        break
+    return j
+
+
+def rewrite_recv(toks, frm, to, counts, mode="once"):
+    """Rewrite whose pattern starts with the wildcard `$X`: `$X.iter().position(|&b| ==> shim::position(&$X, |b: u8|`.
+    `$X` stands for the receiver expression in front of the rest of the pattern, whatever it is (so a change of the receiver
+    is carried into the rewritten text instead of making the pattern miss)."""
+    rest = keys(lex_fragment(frm.strip()[2:]))
+    out = list(toks)
+    hits = 0
+    i = 0
+    while i < len(out):
+        if [x.key() for x in out[i:i + len(rest)]] == rest:
+            start = _receiver_start(out, i)
+            if start < i:
+                recv = out[start:i]
+                recv_text = "".join((" " if k and x.trivia else "") + x.text for k, x in enumerate(recv))
+                new = frag(to.replace("$X", recv_text), out[start].trivia)
+                out[start:i + len(rest)] = new
+                hits += 1
+                i = start + len(new)
+                continue
+        i += 1
+    if mode == "opt" and hits <= 1:
+        counts["rewrite"] = counts.get("rewrite", 0) + hits
+        return out
+    if hits == 0 or (mode == "once" and hits != 1):
+        raise AnchorError("rewrite pattern `%s` matched %d times (expected %s)" % (frm, hits, "1" if mode == "once" else ">=1"))
+    counts["rewrite"] = counts.get("rewrite", 0) + hits
+    return out
+
+
 def rewrite(toks, frm, to, counts, mode="once"):
     """Declared per-region rewrite: token sequence `frm` -> `to`."""
+    if frm.strip().startswith("$X"):
+        return rewrite_recv(toks, frm, to, counts, mode)
     f = keys(lex_fragment(frm))
     if not f:
         raise AnchorError("empty rewrite pattern")
